@@ -323,7 +323,10 @@ class Check:
             "wall_s": round(time.time() - self.t0, 2),
             "violations": len(self.violations),
         }
-        with open(os.path.join(VERIF, "evidence", self.pid + ".json"), "w") as f:
+        # checks beyond the listed properties (ids X..) keep their evidence apart from the per-property evidence files
+        edir = "evidence_extra" if self.pid.startswith("X") else "evidence"
+        os.makedirs(os.path.join(VERIF, edir), exist_ok=True)
+        with open(os.path.join(VERIF, edir, self.pid + ".json"), "w") as f:
             json.dump(ev, f, indent=1, ensure_ascii=False)
         for fid, (f, n, core) in sorted(self.known_hit.items()):
             log("KNOWN-FINDING: property=%s %s (%s; %d occurrence(s) this run)" % (self.pid, f["what"], fid, n))
